@@ -101,6 +101,28 @@ Fixpoint erase_defs (ds : list execdef) : list adef :=
   | d :: r => match erase_def d with Some a => a :: erase_defs r | None => erase_defs r end
   end.
 
+(** * Well-formedness the grammar guarantees (SelectionSet = "{" Selection+ "}")
+
+    [to_json.rs] writes no "selectionSet" key for an empty selection set; for a field that is the same as
+    having none, but an operation, a fragment or an inline fragment without one is not a graphql-js node.
+    The round-trip theorem is stated for definitions whose operation / fragment / inline-fragment
+    selection sets are non-empty, which is every definition the parser can produce. *)
+Fixpoint wf_sel (x : selection) : bool :=
+  match x with
+  | SField _ _ _ _ (Some (SelSet _ sels)) => forallb wf_sel sels
+  | SField _ _ _ _ None => true
+  | SSpread _ _ _ => true
+  | SInline _ _ _ (SelSet _ sels) => match sels with [] => false | _ :: _ => forallb wf_sel sels end
+  end.
+Definition wf_selset (ss : selset) : bool :=
+  match selset_sels ss with [] => false | l => forallb wf_sel l end.
+Definition wf_def (d : execdef) : bool :=
+  match d with
+  | DOp o => wf_selset (op_sel o)
+  | DFrag f => wf_selset (fr_sel f)
+  | DImport _ => false
+  end.
+
 (** * Equality on abstract documents *)
 
 Section ListEqb.
@@ -249,8 +271,9 @@ Fixpoint strip_prefix (p i : str) : option str :=
   end.
 
 Section Loops.
-  (** the value parser one level down *)
+  (** the value parser one level down; [len] >= length of the whole text (fuel for scanning strings) *)
   Variable pv : str -> option (json * str).
+  Variable len : nat.
 
   (** after '[' and a first look that was not ']' : value (',' value)* ']' ; [n] >= length of input *)
   Fixpoint parse_elems (n : nat) (i : str) : option (list json * str) :=
@@ -275,7 +298,7 @@ Section Loops.
     | S m =>
         match skip_ws i with
         | 34 :: r =>
-            match parse_chars (length r) r with
+            match parse_chars len r with
             | Some (k, r1) =>
                 match skip_ws r1 with
                 | 58 :: r2 =>
@@ -300,17 +323,17 @@ Section Loops.
     end.
 End Loops.
 
-(** [fuel] bounds the nesting depth *)
-Fixpoint parse_value (fuel : nat) (i : str) : option (json * str) :=
+(** [fuel] bounds the nesting depth, [len] >= length of the whole text *)
+Fixpoint parse_value (len : nat) (fuel : nat) (i : str) : option (json * str) :=
   match fuel with
   | O => None
   | S fu =>
       match skip_ws i with
-      | 34 :: r => match parse_chars (length r) r with Some (x, r') => Some (JStr x, r') | None => None end
+      | 34 :: r => match parse_chars len r with Some (x, r') => Some (JStr x, r') | None => None end
       | 91 :: r =>
           match skip_ws r with
           | 93 :: r' => Some (JArr [], r')
-          | _ => match parse_elems (parse_value fu) (length r) r with
+          | _ => match parse_elems (parse_value len fu) len r with
                  | Some (xs, r') => Some (JArr xs, r')
                  | None => None
                  end
@@ -318,7 +341,7 @@ Fixpoint parse_value (fuel : nat) (i : str) : option (json * str) :=
       | 123 :: r =>
           match skip_ws r with
           | 125 :: r' => Some (JObj [], r')
-          | _ => match parse_members (parse_value fu) (length r) r with
+          | _ => match parse_members (parse_value len fu) len len r with
                  | Some (xs, r') => Some (JObj xs, r')
                  | None => None
                  end
@@ -341,7 +364,7 @@ Local Close Scope N_scope.
 
 (** a whole text: one value, optional trailing white space *)
 Definition jparse (t : str) : option json :=
-  match parse_value (S (length t)) t with
+  match parse_value (S (length t)) (S (length t)) t with
   | Some (j, r) => match skip_ws r with [] => Some j | _ => None end
   | None => None
   end.
@@ -376,7 +399,7 @@ Definition obind {A B} (o : option A) (f : A -> option B) : option B :=
 
 (** a required key read by a partial reader *)
 Definition req {A} (f : json -> option A) (k : str) (o : list (str * json)) : option A :=
-  match jget_with f k o with Some (Some x) => Some x | _ => None end.
+  match jget_with f k o with Some r => r | None => None end.
 (** an optional key: absent (or JS null/undefined) is [Some None] *)
 Definition opt {A} (f : json -> option A) (k : str) (o : list (str * json)) : option (option A) :=
   match jget_with (fun j => match j with JNull => Some None | _ => option_map Some (f j) end) k o with
@@ -603,11 +626,15 @@ Fixpoint spreads_sel (x : selection) : list str :=
   end.
 Definition spreads_of (ss : selset) : list str := flat_map spreads_sel (selset_sels ss).
 
-(** [reach get ss n]: fragment name [n] is spread in [ss], or in the selection set of a *defined*
-    fragment that is itself reachable *)
-Inductive reach (get : str -> option fragdef) (ss : selset) : str -> Prop :=
-| reach_direct n : In n (spreads_of ss) -> reach get ss n
-| reach_step m f n : reach get ss m -> get m = Some f -> In n (spreads_of (fr_sel f)) -> reach get ss n.
+(** [reach_from get start n]: fragment name [n] is in [start], or is spread in the selection set of a
+    *defined* fragment that is itself reachable *)
+Inductive reach_from (get : str -> option fragdef) (start : list str) : str -> Prop :=
+| reach_direct n : In n start -> reach_from get start n
+| reach_step m f n :
+    reach_from get start m -> get m = Some f -> In n (spreads_of (fr_sel f)) -> reach_from get start n.
+
+(** transitively spread from a selection set *)
+Definition reach (get : str -> option fragdef) (ss : selset) : str -> Prop := reach_from get (spreads_of ss).
 
 (** the same on abstract documents, computed by saturation (used by [holds] on the implementation's output) *)
 Fixpoint a_spreads (x : asel) : list str :=
